@@ -3,6 +3,7 @@ package main
 import (
 	"fmt"
 	"go/types"
+	"golang.org/x/tools/go/packages"
 	"sort"
 	"strings"
 
@@ -56,6 +57,86 @@ func (x *Engine) indexFunctions() {
 	}
 }
 
+// instantiateAutos gives every function of the loaded packages that directly calls the trigger of an autofunc
+// template that template's clauses (appended to an explicit contract of the function when there is one).
+func (x *Engine) instantiateAutos(pkgs []*packages.Package) {
+	if len(x.db.Autos) == 0 {
+		return
+	}
+	initial := map[string]bool{}
+	for _, p := range pkgs {
+		initial[p.PkgPath] = true
+	}
+	var keys []string
+	for k := range x.fnByKey {
+		keys = append(keys, k)
+	}
+	sort.Strings(keys)
+	for _, a := range x.db.Autos {
+		for _, k := range keys {
+			fn := x.fnByKey[k]
+			if fn.Pkg == nil || !initial[fn.Pkg.Pkg.Path()] || !callsDirectly(fn, a.Calls) {
+				continue
+			}
+			t := a.Spec
+			fs := x.db.Funcs[k]
+			if fs == nil {
+				c := *t
+				c.Key, c.Pkg = k, fn.Pkg.Pkg.Path()
+				x.db.Funcs[k] = &c
+				x.db.Order = append(x.db.Order, k)
+				continue
+			}
+			if fs.Assumed || fs.IsIface {
+				continue
+			}
+			for _, pr := range t.Props {
+				if !hasProp(fs.Props, pr) {
+					fs.Props = append(fs.Props, pr)
+				}
+			}
+			fs.Lets = append(append([]*Clause{}, t.Lets...), fs.Lets...)
+			fs.Requires = append(append([]*Clause{}, t.Requires...), fs.Requires...)
+			fs.Ensures = append(append([]*Clause{}, t.Ensures...), fs.Ensures...)
+			if fs.Panics == "" {
+				fs.Panics = t.Panics
+			}
+			if !fs.HasMod {
+				fs.Modifies, fs.HasMod, fs.ModHeap = t.Modifies, t.HasMod, t.ModHeap
+			}
+		}
+	}
+}
+
+func storesTo(fn *ssa.Function, v ssa.Value) bool {
+	for _, b := range fn.Blocks {
+		for _, in := range b.Instrs {
+			if st, ok := in.(*ssa.Store); ok && st.Addr == v {
+				return true
+			}
+		}
+	}
+	for _, a := range fn.AnonFuncs {
+		for _, bind := range a.FreeVars {
+			_ = bind
+		}
+	}
+	return false
+}
+
+func callsDirectly(fn *ssa.Function, key string) bool {
+	for _, b := range fn.Blocks {
+		for _, in := range b.Instrs {
+			if c, ok := in.(ssa.CallInstruction); ok {
+				if callee := c.Common().StaticCallee(); callee != nil && specKeyOf(callee) == key {
+					return true
+				}
+			}
+		}
+	}
+	return false
+}
+
 func (x *Engine) indexAnon(f *ssa.Function) {
 	for _, a := range f.AnonFuncs {
 		if a.Pkg != nil {
@@ -99,7 +180,8 @@ func (x *Engine) verifyFunc(fs *FuncSpec, cs *Clause, prop string) (rep *FuncRep
 	fr := x.newFrame(fn, nil)
 	fr.top = true
 	fr.spec = fs
-	fr.track = fs.Panics == "never"
+	fr.track = fs.Panics == "never" || fs.Panics == "callees"
+	fr.hooksOnly = fs.Panics == "callees"
 	st := &State{live: "true", h: map[string]string{}}
 	fr.entry = &State{live: "true", h: map[string]string{}}
 	pkg := fn.Pkg
@@ -123,12 +205,18 @@ func (x *Engine) verifyFunc(fs *FuncSpec, cs *Clause, prop string) (rep *FuncRep
 			cv.Addr = &Addr{Kind: "cell", Key: x.memKey(et), Ref: cell}
 		}
 		x.assume(st, fmt.Sprintf("(and (< %s %s) (not (= %s 0)))", cell, x.get(st, "$alloc"), cell))
-		fr.vals[fv] = cv
 		if cv.Addr != nil {
 			content := Val{T: x.name("fvv", x.sortOf(et), x.loadAddr(st, cv.Addr)), Typ: et}
 			x.assume(st, x.wf(et, content.T, st))
 			fr.env[fv.Name()] = content
+			if x.extPolicy == "preserve-ghosts" && !storesTo(fn, fv) {
+				// a captured variable this closure never assigns keeps its value while the closure runs (no other
+				// code can name it; the enclosing function is assumed not to reassign it concurrently)
+				c := content
+				cv.Static = &c
+			}
 		}
+		fr.vals[fv] = cv
 	}
 	if x.conc {
 		x.setupConc(fr, st, fs)
@@ -183,6 +271,7 @@ func (x *Engine) verifyFunc(fs *FuncSpec, cs *Clause, prop string) (rep *FuncRep
 		for k, v := range fr.env {
 			env[k] = v
 		}
+		env["$panicked"] = Val{T: "false", Sort: "Bool"}
 		sig := fn.Signature
 		for i := 0; i < sig.Results().Len(); i++ {
 			rt := sig.Results().At(i).Type()
@@ -199,6 +288,12 @@ func (x *Engine) verifyFunc(fs *FuncSpec, cs *Clause, prop string) (rep *FuncRep
 			if sig.Results().Len() == 1 {
 				env["result"] = v
 			}
+			if types.Identical(rt, types.Universe.Lookup("error").Type()) {
+				env["reserr"] = v // the (last) error result, for contract templates that cannot name results
+			}
+		}
+		if _, ok := env["reserr"]; !ok {
+			env["reserr"] = Val{T: "(mk_iface 0 0)", Sort: "Iface"}
 		}
 		// reachability of the normal return (vacuity)
 		x.obls = append(x.obls, &Obl{Name: x.curFn + "#cover[return]", Func: x.curFn, Kind: "cover", Label: "return", Props: fs.Props, NScript: len(x.script), Goal: "false", Live: ret.live, Text: "a normal return is reachable", Expect: "sat"})
@@ -259,7 +354,7 @@ func (x *Engine) verifyFunc(fs *FuncSpec, cs *Clause, prop string) (rep *FuncRep
 				o.Props = c.Props
 			}
 			// cover: the antecedent of an implication must be reachable
-			if c.Expr.Op == "binary" && c.Expr.Name == "==>" && cs == nil {
+			if c.Expr.Op == "binary" && c.Expr.Name == "==>" && cs == nil && !c.NoCover {
 				ant := x.safeEvalBool(ev, &Clause{Expr: c.Expr.Args[0], Text: c.Text, File: c.File, Line: c.Line})
 				x.obls = append(x.obls, &Obl{Name: x.curFn + "#cover[" + lab + "]", Func: x.curFn, Kind: "cover", Label: lab, Props: o.Props, NScript: len(x.script), Goal: notTerm(ant), Live: ret.live, Text: "antecedent reachable: " + c.Text, Expect: "sat"})
 			}
@@ -272,6 +367,39 @@ func (x *Engine) verifyFunc(fs *FuncSpec, cs *Clause, prop string) (rep *FuncRep
 		}
 	} else {
 		x.notes = append(x.notes, "no normal return reachable in "+fs.Key)
+	}
+	// always clauses hold on every exit: checked at each escaping panic too (state after the deferred calls ran)
+	for i, c := range fs.Ensures {
+		if c.Kind != "always" || (len(c.Props) > 0 && !hasProp(c.Props, prop)) {
+			continue
+		}
+		for _, p := range fr.panics {
+			pst := p.st.clone()
+			pst.live = p.cond
+			env := map[string]Val{}
+			for k, v := range fr.env {
+				env[k] = v
+			}
+			env["$panicked"] = Val{T: "true", Sort: "Bool"}
+			ev := &Eval{x: x, st: pst, old: fr.entry, env: env, pkg: pkg}
+			g := x.safeEvalBool(ev, c)
+			lab := c.Label
+			if lab == "" {
+				lab = fmt.Sprint(i + 1)
+			}
+			o := x.obligeNoAssume(pst, "always", lab+"@panic:"+stableOrigin(p.origin), g, c.Text+"   [on the exit by panic from "+p.origin+"]", fmt.Sprintf("%s:%d", shortFile(c.File), c.Line))
+			if len(c.Props) > 0 {
+				o.Props = c.Props
+			}
+		}
+	}
+	if fs.Panics == "callees" {
+		// the function's own code never panics: only a callee declared "panics may" can make it exit by panic
+		for _, p := range fr.panics {
+			if !strings.HasPrefix(p.origin, "callee-panic") {
+				x.obligeNoAssume(&State{live: "true", h: map[string]string{}}, "nopanic", stableOrigin(p.origin), notTerm(p.cond), "no panic of its own: "+p.origin, p.origin)
+			}
+		}
 	}
 	if fs.Panics == "never" {
 		for _, p := range fr.panics {
